@@ -24,7 +24,10 @@
      pend  : decoderImpl.child left behind by a list that was abandoned because
              ErrNilValue escaped from one of its struct fields: the number of bytes that
              reader may still deliver.  It is drained by the next flush() (only custom
-             DecodeSelfer types flush) or silently replaced by the next list.        *)
+             DecodeSelfer types flush) or silently replaced by the next list.
+             Since commit 9a1f237 nothing abandons a reader any more (pend stays 0, see
+             Proofs_Rlp.dec_pend); the component is kept because the model is parametrised
+             by the behaviour before that commit ([dec_pre], the refuted variant).   *)
 From Goloop Require Import lib.Bytes.
 Open Scope N_scope.
 
@@ -676,6 +679,7 @@ Fixpoint wtb (t : ty) (v : value) {struct t} : bool :=
 Fixpoint absorbs (t : ty) : bool :=
   match t with
   | TBytes | TList _ | TMap _ _ | TPtr _ => true
+  | TRaw => true                      (* ReadRaw returns the nil marker as a raw item *)
   | TSelf t' => absorbs t'
   | _ => false
   end.
@@ -685,6 +689,7 @@ Fixpoint nilv (t : ty) : value :=
   | TBytes => VBytes None
   | TList _ => VList None
   | TMap _ _ => VMap None
+  | TRaw => VRaw null
   | TPtr t' => if absorbs t' then VPtr (Some (nilv t')) else VPtr None
   | TSelf t' => nilv t'
   | _ => zero t
